@@ -42,10 +42,11 @@
      (task, cid) of active layers are distinct; this is the save-and-restore composition invariant from
      which the three theorems above follow.
 
+   C07_layer_owners_await: the owner u of every layer below t's own awaits t: t is reachable from u through
+     the dependency lists of uncompleted tasks (MachineC04.reach) - "the tasks awaiting it" of the property.
+     (Needs tree p only.)
+
    WHAT IS NOT PROVED HERE (covered by the correspondence harness + monitors in harness/props/c07.py):
-   - that a layer below t belongs to a task that transitively awaits t in the dependency graph (the theorem
-     says: uncomputed, on the scheduler stack below t, contexts active; C04's pass invariant pk_grey says
-     such a task's dependencies are computed, settled or above it on the stack);
    - programs that branch on ReadVar values, Let/Sync (synchronous re-entry through .value()), Probe,
      NonAsyncContext (raises on pause/resume), AsyncContext objects whose resume()/pause() raise,
      async_override of attributes, with-blocks left open when a task ends (generator.close() path of
@@ -53,7 +54,7 @@
      guard fired;
    - an end-to-end equation with a sequential evaluator for scoped values (Seq.eval has no variables; the
      read theorem is stated on the machine state at the moments a task's code runs). *)
-From Asynq Require Import Machine Seq proofs.MachineC08 proofs.MachineC01 proofs.MachineC07.
+From Asynq Require Import Machine Seq proofs.MachineC08 proofs.MachineC01 proofs.MachineC04 proofs.MachineC07.
 
 (* T1 *)
 Theorem C07_values_restored : forall P, pointwise P -> forall p, tree p -> wn [] p -> forall n,
@@ -89,6 +90,15 @@ Theorem C07_reads_innermost : forall P, pointwise P -> forall p, tree p -> wn []
   ((forall l, In l (layers s) -> ovar (snd l) <> Some x) -> var_get x s = var_get x s1).
 Proof. exact reads_innermost_tree. Qed.
 Print Assumptions C07_reads_innermost.
+
+Theorem C07_layer_owners_await : forall P, pointwise P -> forall p, tree p -> forall n t q,
+  let h := fst (create [] (FTask p) (st0 P)) in
+  let s1 := snd (create [] (FTask p) (st0 P)) in
+  no_unwind P n (start h s1) -> c_mode (run P n (start h s1)) = MRun t q ->
+  let s := c_st (run P n (start h s1)) in
+  forall rest, tasks s = t :: rest -> forall u c, In (u, c) (lower s rest) -> reach s u t.
+Proof. exact layer_owners_await_tree. Qed.
+Print Assumptions C07_layer_owners_await.
 
 (* T3 *)
 Theorem C07_contexts_nest_lifo : forall P, pointwise P -> forall p, tree p -> wn [] p -> forall n,
